@@ -170,6 +170,28 @@ def call_programs(start):
                                           pid, base, base, pid, base))
         progs.append(prog)
         pid += 1
+    # explicit type arguments for a PREFIX of the type parameters (K<any> for K<T, U>): emitted as written, the rest is left to Go
+    for form in ("full", "partial1", "piped"):
+        base = "K%d" % pid
+        sname = base + "<any>"
+        ext = {"name": sname, "arity": 2, "ret": {"k": "int", "v": 7}}
+        T = lambda i: "p%dk%d" % (pid, i)
+        args = [{"k": "probe", "tag": T(0), "e": {"k": "int", "v": 3}}, {"k": "probe", "tag": T(1), "e": {"k": "str", "v": "s"}}]
+        stmts = []
+        if form == "full":
+            call = {"k": "app", "f": sname, "args": args}
+        elif form == "partial1":
+            stmts.append({"k": "let", "x": "h", "e": {"k": "app", "f": sname, "args": [{"k": "int", "v": 3}]}})
+            stmts.append({"k": "mark", "tag": T(9)})
+            call = {"k": "app", "f": "h", "args": args[1:]}
+        else:
+            call = {"k": "pipe", "a": args[1], "b": {"k": "app", "f": sname, "args": args[:1]}}
+        prog = {"id": pid, "profile": "fc", "types": [], "funcs": [], "externs": [ext], "main": {"stmts": stmts, "fin": call}, "mtype": fogen.INT,
+                "meta": {"pkg": "_", "arity": 2, "res": "int", "generic": "prefix", "form": form, "targ": "any"},
+                "decl": "package_info _ =\n  let %s<T, U>: T->U->int\n" % base}
+        gosrc["ext_p%d.go" % pid] = ("package main\n\nfunc %s[T any, U any](a0 T, a1 U) int { emitCall(\"call:%s<\" + typeArgName[T]() + \">\", a0, a1); return 7 }\n" % (base, base))
+        progs.append(prog)
+        pid += 1
     return progs, gosrc
 
 
